@@ -1,4 +1,5 @@
 import RTA.Lemmas.Derive
+import RTA.Lemmas.DeriveIter
 /-! # C12 — derived arrival curves dominate their source and are exact on the covered prefix
 
 Model: `RTA/Model/Curve.lean` (`curveFromTrace`), `RTA/Model/Derive.lean` (`dminScan` /
@@ -65,5 +66,23 @@ example : SubAdditive (Arr.sporadic 7 3).N ∧ (Arr.sporadic 7 3).WF ∧ (Arr.sp
     1 ≤ (Arr.sporadic 7 3).N 1 := by
   refine ⟨fun a b => sporadic_subadditive 7 3 a b (by decide), by decide, ?_, by decide⟩
   simp [Arr.Exact]
+
+/-- the iterator-driven constructors (what the driver executes against the real code: the
+horizon is found from what the `DeltaMinIterator` has emitted, which stays faithful when
+`steps_iter` misses increases, findings F2/F3) coincide with the constructors the theorems
+above speak about, for every well-formed model with exact steps (`from_arrival_bound_until`:
+for horizons within the range of `u64` durations) -/
+theorem iterator_driven_constructors_agree (a : Arr) (hwf : a.WF) (hex : a.Exact) :
+    (∀ upTo, a.curveOfBoundIter upTo = a.curveOfBound upTo) ∧
+    (∀ horizon, horizon + 2 ≤ 2 ^ 65 - 1 → a.curveOfBoundUntilIter horizon = a.curveOfBoundUntil horizon) ∧
+    (∀ k, a.dminIterTakeIter k = a.dminIterTake k) :=
+  ⟨fun u => curveOfBoundIter_eq a hwf hex u, fun h hh => curveOfBoundUntilIter_eq a hwf hex h hh,
+   fun k => dminIterTakeIter_eq a hwf hex k⟩
+
+/-- the fuel bound matters: beyond the range of the 64-step doubling search the two renderings
+differ (a periodic model with period 2^66) -/
+theorem iterator_driven_until_needs_range :
+    (Arr.periodic (2 ^ 66)).curveOfBoundUntilIter (2 ^ 67) ≠ (Arr.periodic (2 ^ 66)).curveOfBoundUntil (2 ^ 67) := by
+  decide
 
 end RTA.C12
